@@ -572,9 +572,12 @@ def r5_records(report, repo):
     if p.end == 'exit':
       k = p.calls(attr='add_checkpoint_record')
       fc = p.calls(attr='from_checkpoint')
-      ok = len(k) == 1 and len(fc) == 1 and any(
-          ends_with(dotted(n) or '', 'PhaseResult.SKIP')
-          for n in ast.walk(fc[0]))
+      ok = len(k) == 1 and len(fc) == 1
+      if ok:
+        fi = p.index_of(lambda n_: n_.contains(fc[0]))
+        ok = any(ends_with(dotted(n) or '', 'PhaseResult.SKIP')
+                 for a_ in fc[0].args
+                 for n in ast.walk(cfgm.path_resolve(p, a_, before_index=fi)))
       report.check(ok, rule, f.qualname, 'skip-record', f.node,
                    'skip_checkpoint writes exactly one record with result SKIP')
 
